@@ -560,6 +560,7 @@ def cal : Calc where
   twoEras := false
   eraName := "EH"
   firstMonth := 1
+  searchLo := minYear - 1
 
 end UAQ
 
